@@ -78,6 +78,7 @@ Ltac crush :=
   | H : arms_ok _ _ _ _ (MCons _ _ _ _ _) |- _ => inv H
   | H : stmt_ok _ _ _ (SAssign _ _ _ _ _) _ |- _ => inv H
   | H : stmt_ok _ _ _ (SIf _ _ _ _ _) _ |- _ => inv H
+  | H : stmt_ok _ _ _ (SCompound _ _ _ _) _ |- _ => inv H
   | H : stmt_ok _ _ _ (SMatch _ _ _ _) _ |- _ => inv H
   | H : stmt_ok _ _ _ (SReturn _ _) _ |- _ => inv H
   | H : stmt_ok _ _ _ (SExpr _ _) _ |- _ => inv H
